@@ -43,7 +43,7 @@ def build(case, initialize=True):
         elif k[0] == 'metric':
             ty = {None: None, 'none': MetricType.NONE, 'obj': MetricType.OBJECTIVE, 'con': MetricType.CONSTRAINT,
                   'both': MetricType.OBJ_OR_CON}[k[3]]
-            b.node[i] = MetricNode('M%02d' % i, direction=k[1], ref=k[2], type_=ty)
+            b.node[i] = MetricNode('M%02d' % (k[4] if len(k) > 4 and k[4] is not None else i), direction=k[1], ref=k[2], type_=ty)
         elif k[0] == 'conn':
             b.node[i] = ConnectorNode('C%02d' % i, deg_spec=_degspec_py(k[1]), repeated_allowed=bool(k[2]))
         elif k[0] == 'group':
